@@ -1,5 +1,7 @@
 fn main() {
     varlink_generator::cargo_build("idl/org.verif.t.varlink");
+    // a definition file with CRLF line ends: GetInterfaceDescription must return it verbatim (C03)
+    varlink_generator::cargo_build("idl/org.verif.crlf.varlink");
     // rebuild the generated module whenever the generator or parser of /repo changes
     println!("cargo:rerun-if-changed=/repo/varlink_generator/src/lib.rs");
     println!("cargo:rerun-if-changed=/repo/varlink_parser/src");
